@@ -55,29 +55,33 @@ Let x := oi_ctx oi.
 (* stashed notifications are only re-sent by a tick *)
 Lemma nf_unstash_ok l : forall s g s' evs,
   NfInvM c oi s g -> Forall (fun h => sh_reminder h = false) l ->
-  (l <> [] -> oi_mayforce oi = true /\ oi_remposs oi = false) ->
-  oi_tick oi = true -> cx_glob_en x = true -> cx_ck_en x = true ->
+  (forall h, In h l -> sh_force h = true -> nf_mayforce oi (sh_type h) = true) ->
+  (oi_remposs oi = true -> forall h, In h l -> sh_type h <> NfProblem) ->
+  oi_tick oi = true -> oi_pdefer oi = true -> cx_glob_en x = true -> cx_ck_en x = true ->
   nf_unstash c now x l s = (s', evs) ->
-  NfGood c oi g s' evs /\ nf_stash s' = nf_stash s.
+  NfGood c oi g s' evs /\ nf_stash s' = nf_stash s /\
+  (oi_remposs oi = true -> sp_problem (nf_sup s') = true -> sp_problem (nf_sup s) = true).
 Proof.
-  induction l as [|h r IH]; intros s g s' evs HI HF HL Ht E1 E2 HU.
-  - inversion HU; subst. split; [apply nf_good_nil; assumption|reflexivity].
+  induction l as [|h r IH]; intros s g s' evs HI HF HL HN Ht Hd E1 E2 HU.
+  - inversion HU; subst. split; [apply nf_good_nil; assumption|split; [reflexivity|auto]].
   - cbn [nf_unstash] in HU.
     destruct (nf_begin c now x (sh_type h) (sh_force h) (sh_reminder h) s) as [s1 e] eqn:HB.
     destruct (nf_unstash c now x r s1) as [s2 evs2] eqn:HR.
     inversion HU; subst s' evs; clear HU.
-    destruct (HL ltac:(discriminate)) as [Mf Rp].
     inversion HF as [|? ? Hh HFr]; subst.
     assert (NfSide c oi (sh_type h) (sh_force h) (sh_reminder h) s g) as HS.
-    { split; [intros _; exact Mf|]. split; [intros _; split; assumption|]. split; [intros _; exact Hh|].
-      intros _ R. rewrite Rp in R. discriminate. }
-    destruct (nf_begin_ok c oi _ _ _ s g s1 e HI HS HB) as (K1 & K2 & K3 & _ & _).
-    assert (r <> [] -> oi_mayforce oi = true /\ oi_remposs oi = false) as HL' by (intros _; auto).
-    destruct (IH s1 _ s2 evs2 K2 HFr HL' Ht E1 E2 HR) as [G2 St2].
-    split; [|rewrite St2; assumption].
-    apply (nf_good_app c oi g s1 [NfEvExec e] s2 evs2).
-    + apply nf_good_one; assumption.
-    + unfold nf_obs_evs. cbn [flat_map]. rewrite app_nil_r. exact G2.
+    { split; [intro F; apply HL; [left; reflexivity|exact F]|]. split; [intros _; split; assumption|].
+      split; [intro F; rewrite F in Ht; discriminate|]. split; [intros _ _; exact Hd|].
+      intros _ R Ep. exfalso. exact (HN R h (or_introl eq_refl) Ep). }
+    destruct (nf_begin_ok c oi _ _ _ s g s1 e HI HS HB) as (K1 & K2 & K3 & K4 & _).
+    assert (forall h', In h' r -> sh_force h' = true -> nf_mayforce oi (sh_type h') = true) as HL' by (intros; apply HL; [right|]; assumption).
+    assert (oi_remposs oi = true -> forall h', In h' r -> sh_type h' <> NfProblem) as HN' by (intros R h' Hi; apply (HN R); right; assumption).
+    destruct (IH s1 _ s2 evs2 K2 HFr HL' HN' Ht Hd E1 E2 HR) as (G2 & St2 & Sp2).
+    split; [|split; [rewrite St2; assumption|]].
+    + apply (nf_good_app c oi g s1 [NfEvExec e] s2 evs2).
+      * apply nf_good_one; assumption.
+      * unfold nf_obs_evs. cbn [flat_map]. rewrite app_nil_r. exact G2.
+    + intros R P. apply K4; [exact (HN R h (or_introl eq_refl))|]. apply Sp2; assumption.
 Qed.
 
 Lemma nf_fire_drop_problem tys : forall st sub,
@@ -91,15 +95,15 @@ Qed.
 
 Lemma nf_fire_loop_ok st tys : forall s sub g s' sub' evs,
   NfInvM c oi s g -> (oi_remposs oi = true -> sp_problem st = false) ->
-  oi_tick oi = true -> cx_glob_en x = true -> cx_ck_en x = true ->
+  oi_tick oi = true -> oi_pdefer oi = true -> cx_glob_en x = true -> cx_ck_en x = true ->
   nf_fire_loop c now x st tys s sub = (s', sub', evs) ->
   NfGood c oi g s' evs /\ nf_stash s' = nf_stash s.
 Proof.
-  induction tys as [|ty r IH]; intros s sub g s' sub' evs HI HP Ht E1 E2 HF.
+  induction tys as [|ty r IH]; intros s sub g s' sub' evs HI HP Ht Hd E1 E2 HF.
   - inversion HF; subst. split; [apply nf_good_nil; assumption|reflexivity].
   - cbn [nf_fire_loop] in HF.
     destruct (negb (nf_supp_has st ty) || nf_reason_suppressed x ty) eqn:Sk.
-    + apply (IH _ _ _ _ _ _ HI HP Ht E1 E2 HF).
+    + apply (IH _ _ _ _ _ _ HI HP Ht Hd E1 E2 HF).
     + apply orb_false_iff in Sk. destruct Sk as [Sh _]. apply negb_false_iff in Sh.
       set (s1 := nf_set_sup s (nf_supp_minus (nf_sup s) (nf_supp_ins sub ty))) in *.
       destruct (nf_begin c now x ty false false s1) as [s2 e] eqn:HB.
@@ -107,10 +111,11 @@ Proof.
       inversion HF; subst s' sub' evs; clear HF.
       assert (NfInvM c oi s1 g) as HI1 by (apply NfInvM_sup; assumption).
       assert (NfSide c oi ty false false s1 g) as HS.
-      { split; [discriminate|]. split; [intros _; split; assumption|]. split; [reflexivity|].
+      { split; [discriminate|]. split; [intros _; split; assumption|].
+        split; [intro F; rewrite F in Ht; discriminate|]. split; [intros _ _; exact Hd|].
         intros _ R Ep. exfalso. subst ty. cbn in Sh. rewrite (HP R) in Sh. discriminate. }
       destruct (nf_begin_ok c oi _ _ _ s1 g s2 e HI1 HS HB) as (K1 & K2 & K3 & _ & _).
-      destruct (IH _ _ _ _ _ _ K2 HP Ht E1 E2 HR) as [G3 St3].
+      destruct (IH _ _ _ _ _ _ K2 HP Ht Hd E1 E2 HR) as [G3 St3].
       split; [|rewrite St3, K3; reflexivity].
       apply (nf_good_app c oi g s2 [NfEvExec e] s3 evs3).
       * apply nf_good_one; assumption.
@@ -119,11 +124,11 @@ Qed.
 
 Lemma nf_fire_ok s g s' evs :
   NfInvM c oi s g -> (oi_remposs oi = true -> sp_problem (nf_sup s) = false) ->
-  oi_tick oi = true -> cx_glob_en x = true -> cx_ck_en x = true ->
+  oi_tick oi = true -> oi_pdefer oi = true -> cx_glob_en x = true -> cx_ck_en x = true ->
   nf_fire c now x s = (s', evs) ->
   NfGood c oi g s' evs /\ nf_stash s' = nf_stash s.
 Proof.
-  intros HI HP Ht E1 E2 HF. unfold nf_fire in HF.
+  intros HI HP Ht Hd E1 E2 HF. unfold nf_fire in HF.
   destruct (nf_supp_empty (nf_sup s)).
   { inversion HF; subst. split; [apply nf_good_nil; assumption|reflexivity]. }
   destruct (nf_fire_drop x nf_fire_types (nf_sup s) nf_supp_none) as [st sub] eqn:HD.
@@ -133,7 +138,7 @@ Proof.
     rewrite (Q P) in HP. apply HP. assumption. }
   destruct (negb (nf_supp_empty st) && negb (cx_per_closed x) && negb (cx_soon x)).
   - destruct (nf_fire_loop c now x st nf_fire_types s sub) as [[s1 sub1] evs1] eqn:HL.
-    destruct (nf_fire_loop_ok st nf_fire_types _ _ _ _ _ _ HI HP' Ht E1 E2 HL) as [[G1 G2] St].
+    destruct (nf_fire_loop_ok st nf_fire_types _ _ _ _ _ _ HI HP' Ht Hd E1 E2 HL) as [[G1 G2] St].
     inversion HF; subst s' evs; clear HF.
     destruct (nf_supp_empty sub1); [split; [split|]; assumption|].
     split; [split; [assumption|apply NfInvM_sup; assumption]|assumption].
@@ -150,11 +155,11 @@ Proof.
 Qed.
 
 Lemma nf_tick_rem_ok s g s' evs :
-  NfInvM c oi s g -> oi_tick oi = true -> cx_glob_en x = true -> cx_ck_en x = true ->
+  NfInvM c oi s g -> oi_tick oi = true -> oi_pdefer oi = true -> cx_glob_en x = true -> cx_ck_en x = true ->
   nf_tick_rem c now x s = (s', evs) ->
   NfGood c oi g s' evs /\ nf_stash s' = nf_stash s.
 Proof.
-  intros HI Ht E1 E2 HR. unfold nf_tick_rem in HR.
+  intros HI Ht Hd E1 E2 HR. unfold nf_tick_rem in HR.
   destruct ((nfc_interval c <=? 0) && nf_nomore s) eqn:Nm.
   { inversion HR; subst. split; [apply nf_good_nil; assumption|reflexivity]. }
   destruct (now <? nf_next s) eqn:Nx.
@@ -173,6 +178,7 @@ Proof.
   inversion HR; subst s' evs; clear HR.
   assert (NfSide c oi NfProblem false true s1 g) as HS.
   { split; [discriminate|]. split; [auto|]. split; [intro F; rewrite F in Ht; discriminate|].
+    split; [intros _ _; exact Hd|].
     intros _ _ _. split; [|split].
     - unfold nf_rem_ctx_ok. fold x. rewrite Hs.
       apply negb_false_iff in Hh. rewrite Hh.
@@ -197,8 +203,13 @@ Proof.
   - destruct (oi_now oi <? g_tm g) eqn:L; [discriminate|]. destruct (D t H). assumption.
 Qed.
 
-Lemma nf_stash_empty_nil s : nf_stash_empty s = true -> nf_stash s = [].
-Proof. unfold nf_stash_empty. destruct (nf_stash s); [reflexivity|discriminate]. Qed.
+Lemma nf_mayforce_stash st now x h :
+  In h st -> sh_force h = true -> nf_mayforce (nf_opinfo_of st false (NfTick now x)) (sh_type h) = true.
+Proof.
+  intros Hi Hf. unfold nf_mayforce. cbn [oi_forced nf_opinfo_of]. apply existsb_exists.
+  exists (sh_type h). split; [|apply nf_type_eqb_refl].
+  apply in_map. apply filter_In. split; assumption.
+Qed.
 
 Lemma nf_tick_ok c s g now x s' evs :
   let oi := nf_opinfo_st s (NfTick now x) in
@@ -206,6 +217,7 @@ Lemma nf_tick_ok c s g now x s' evs :
 Proof.
   intros oi HI HT. unfold nf_tick, nf_tick_pre in HT.
   assert (oi_tick oi = true) as Ht by reflexivity.
+  assert (oi_pdefer oi = true) as Hd by reflexivity.
   set (s1 := if cx_paused x && cx_auth x then match nf_stash s with _ :: _ => nf_set_stash s [] | [] => s end else s) in *.
   assert (NfInvM c oi s1 g) as HI1.
   { unfold s1. destruct (cx_paused x && cx_auth x); [|assumption].
@@ -227,24 +239,30 @@ Proof.
     inversion HT; subst s' evs; clear HT.
     assert (NfInvM c oi (nf_set_stash s1 []) g) as HI2 by (apply NfInvM_stash; [assumption|constructor]).
     assert (Forall (fun h => sh_reminder h = false) (nf_stash s1)) as HFs by (destruct HI1 as ((_ & _ & _ & _ & E) & _); exact E).
-    assert (nf_stash s1 <> [] -> oi_mayforce oi = true /\ oi_remposs oi = false) as HL.
-    { intro Ne. destruct Hst as [Hst|Hst]; [|contradiction].
-      unfold oi, nf_opinfo_st, nf_opinfo_of. cbn. unfold nf_stash_empty. rewrite <- Hst.
-      destruct (nf_stash s1); [contradiction|]. split; reflexivity. }
-    destruct (nf_unstash_ok c oi (nf_stash s1) _ g sa ea HI2 HFs HL Ht E1 E2 HU) as [[Ga1 Ga2] Sa].
+    assert (forall h, In h (nf_stash s1) -> In h (nf_stash s)) as Sub.
+    { intros h Hi. destruct Hst as [Q|Q]; rewrite Q in Hi; [assumption|contradiction]. }
+    assert (forall h, In h (nf_stash s1) -> sh_force h = true -> nf_mayforce oi (sh_type h) = true) as HL.
+    { intros h Hi Hf. apply (nf_mayforce_stash (nf_stash s) now x h); [apply Sub|]; assumption. }
+    assert (oi_remposs oi = true -> forall h, In h (nf_stash s1) -> sh_type h <> NfProblem) as HN.
+    { intros R h Hi Ep. unfold oi, nf_opinfo_st, nf_opinfo_of in R. cbn [oi_remposs] in R.
+      apply andb_true_iff in R. destruct R as [R _]. apply negb_true_iff in R.
+      assert (existsb (fun h => nf_type_eqb (sh_type h) NfProblem) (nf_stash s) = true) as Q.
+      { apply existsb_exists. exists h. split; [apply Sub; assumption|rewrite Ep; reflexivity]. }
+      rewrite Q in R. discriminate. }
+    destruct (nf_unstash_ok c oi (nf_stash s1) _ g sa ea HI2 HFs HL HN Ht Hd E1 E2 HU) as ([Ga1 Ga2] & Sa & Spa).
     assert (oi_remposs oi = true -> sp_problem (nf_sup sa) = false) as HP.
-    { intro R. unfold oi, nf_opinfo_st, nf_opinfo_of in R. cbn in R. apply andb_true_iff in R. destruct R as [R1 R2].
-      apply nf_stash_empty_nil in R1.
-      assert (nf_stash s1 = []) as N by (destruct Hst as [Q|Q]; [rewrite Q; assumption|assumption]).
-      rewrite N in HU. inversion HU; subst. cbn. rewrite Hsup. apply negb_true_iff in R2. assumption. }
-    destruct (nf_fire_ok c oi sa _ sb eb Ga2 HP Ht E1 E2 HF) as [[Gb1 Gb2] Sb].
-    destruct (nf_tick_rem_ok c oi sb _ s3 evs3 Gb2 Ht E1 E2 HR) as [Gr Sr].
+    { intro R. destruct (sp_problem (nf_sup sa)) eqn:P; [|reflexivity].
+      pose proof (Spa R eq_refl) as Q. cbn [nf_sup nf_set_stash] in Q. rewrite Hsup in Q.
+      unfold oi, nf_opinfo_st, nf_opinfo_of in R. cbn [oi_remposs] in R.
+      apply andb_true_iff in R. destruct R as [_ R]. rewrite Q in R. discriminate. }
+    destruct (nf_fire_ok c oi sa _ sb eb Ga2 HP Ht Hd E1 E2 HF) as [[Gb1 Gb2] Sb].
+    destruct (nf_tick_rem_ok c oi sb _ s3 evs3 Gb2 Ht Hd E1 E2 HR) as [Gr Sr].
     apply (nf_good_app c oi g sb (ea ++ eb) s3 evs3).
     + apply (nf_good_app c oi g sa ea sb eb); split; assumption.
     + rewrite nf_obs_evs_app, nf_g_evs_app. exact Gr.
   - destruct (nf_tick_rem c now x s1) as [s3 evs3] eqn:HR.
     inversion HT; subst s' evs; clear HT.
-    destruct (nf_tick_rem_ok c oi s1 g s3 evs3 HI1 Ht E1 E2 HR) as [Gr Sr]. exact Gr.
+    destruct (nf_tick_rem_ok c oi s1 g s3 evs3 HI1 Ht Hd E1 E2 HR) as [Gr Sr]. exact Gr.
 Qed.
 
 Lemma nf_request_ok c s g now x ty force s' evs :
@@ -265,9 +283,14 @@ Proof.
       * destruct (nf_begin c now x ty force false s) as [s1 e] eqn:HB.
         inversion HR; subst s' evs; clear HR.
         assert (NfSide c oi ty force false s g) as HS.
-        { split; [intro F; exact F|]. split; [|split; [reflexivity|intro F; discriminate]].
-          intro F. rewrite F in En. cbn in En. rewrite andb_true_r in En.
-          apply orb_false_iff in En. destruct En as [A B]. apply negb_false_iff in A, B. split; assumption. }
+        { assert (nf_mayforce oi ty = force) as Mf.
+          { unfold nf_mayforce, oi, nf_opinfo_st, nf_opinfo_of. cbn [oi_forced]. destruct force; cbn [existsb]; [|reflexivity].
+            rewrite nf_type_eqb_refl. reflexivity. }
+          split; [intro F; rewrite Mf; exact F|]. split; [|split; [intros _; split; [reflexivity|exact Mf]|split]].
+          - intro F. rewrite F in En. cbn in En. rewrite andb_true_r in En.
+            apply orb_false_iff in En. destruct En as [A B]. apply negb_false_iff in A, B. split; assumption.
+          - intros Ep Ff. unfold oi, nf_opinfo_st, nf_opinfo_of. cbn [oi_pdefer]. rewrite Ep, Ff. reflexivity.
+          - intro F; discriminate. }
         destruct (nf_begin_ok c oi _ _ _ s g s1 e HI HS HB) as (K1 & K2 & _).
         apply nf_good_one; assumption.
       * inversion HR; subst. apply nf_good_nil. exact Stash.
@@ -297,11 +320,11 @@ Qed.
 
 Lemma nf_model_no_bad c h : forall s g idx,
   NfInv c s g ->
-  nf_first nf_is_bad idx (nf_verdicts c g (nf_stash_empty s) (sp_problem (nf_sup s)) (nf_model_trace c s h)) = None.
+  nf_first nf_is_bad idx (nf_verdicts c g (nf_stash s) (sp_problem (nf_sup s)) (nf_model_trace c s h)) = None.
 Proof.
   induction h as [|o r IH]; intros s g idx HI; [reflexivity|].
   cbn [nf_model_trace]. destruct (nf_step c s o) as [s' evs] eqn:HS.
-  cbn [nf_verdicts os_op os_evs os_stash_empty os_sup_problem nf_first].
+  cbn [nf_verdicts os_op os_evs os_stash os_sup_problem nf_first].
   destruct (nf_step_ok c s g o s' evs HI HS) as [A B].
   fold (nf_opinfo_st s o).
   rewrite (nf_find_none nf_is_bad _ A). apply IH. exact B.
